@@ -322,10 +322,20 @@ def subtree_box(prog: Program) -> RuleResult:
             return True
         if re.fullmatch(r"child[01]\['size'\]\.[wh]", key):
             return True
+        if re.fullmatch(r"child[01]\['[a-z_]+'\]\.[xywh]", key):
+            return True  # position and size of a rectangle stored for a child (its trunk), in the child's own box
         return key in nonneg_names
 
     ctx = Ctx(is_nonneg)
     opaque: set = set()
+    # points of a rectangle, read from utils/geometry.py itself: method -> (x expression, y expression) over self
+    rect_methods: dict = {}
+    for m in prog.cls("utils.geometry", "Rect").body:
+        if isinstance(m, ast.FunctionDef) and len(m.args.args) == 1:
+            rets = [r for r in ast.walk(m) if isinstance(r, ast.Return)]
+            if len(rets) == 1 and isinstance(rets[0].value, ast.Call) and dotted(rets[0].value.func) == "Position" and len(rets[0].value.args) == 2:
+                rect_methods[m.name] = tuple(rets[0].value.args)
+    child_rect_keys: set = set()
 
     def ev(expr: ast.AST, env: dict):
         if isinstance(expr, ast.Constant) and isinstance(expr.value, (int, float)) and not isinstance(expr.value, bool):
@@ -360,6 +370,25 @@ def subtree_box(prog: Program) -> RuleResult:
                 a, b = ev(expr.args[0], env), ev(expr.args[1], env)
                 if isinstance(a, Poly) and isinstance(b, Poly):
                     return ("vec", a, b)
+            if isinstance(expr.func, ast.Attribute) and expr.func.attr in rect_methods and not expr.args and not expr.keywords:
+                base = ev(expr.func.value, env)
+                if isinstance(base, tuple) and base[0] == "rect":
+                    senv = {"self.x": base[1][1], "self.y": base[1][2], "self.w": base[2][1], "self.h": base[2][2]}
+
+                    def sub(e: ast.AST):
+                        if isinstance(e, ast.Attribute) and dotted(e) in senv:
+                            return senv[dotted(e)]
+                        if isinstance(e, ast.Constant) and isinstance(e.value, (int, float)):
+                            return Poly.const(Fraction(e.value).limit_denominator(10**6))
+                        if isinstance(e, ast.BinOp) and isinstance(e.op, (ast.Add, ast.Sub)):
+                            a_, b_ = sub(e.left), sub(e.right)
+                            return a_ + b_ if isinstance(e.op, ast.Add) else a_ - b_
+                        if isinstance(e, ast.BinOp) and isinstance(e.op, ast.Div) and isinstance(e.right, ast.Constant) and e.right.value:
+                            return sub(e.left).scale(Fraction(1) / Fraction(e.right.value))
+                        raise AnalysisError(f"SUBTREE-BOX: Rect.{expr.func.attr} is not a sum of the rectangle's fields")
+
+                    xe, ye = rect_methods[expr.func.attr]
+                    return ("vec", sub(xe), sub(ye))
             if name and name.endswith("make_from"):
                 pos = ev(expr.args[0] if expr.args else next(k.value for k in expr.keywords if k.arg == "position"), env)
                 size = ev(expr.args[1] if len(expr.args) > 1 else next(k.value for k in expr.keywords if k.arg == "size"), env)
@@ -390,6 +419,12 @@ def subtree_box(prog: Program) -> RuleResult:
             if isinstance(base, ast.Name) and base.id in info_vars and isinstance(expr.slice, ast.Constant) and expr.slice.value == size_key:
                 k = info_vars[base.id]
                 return ("vec", Poly.atom(f"child{k}['size'].w"), Poly.atom(f"child{k}['size'].h"))
+            if isinstance(base, ast.Name) and base.id in info_vars and isinstance(expr.slice, ast.Constant) and isinstance(expr.slice.value, str) and re.fullmatch(r"[a-z_]+", expr.slice.value):
+                # a rectangle the child stored for itself (checked below to be the trunk key)
+                k, key_ = info_vars[base.id], expr.slice.value
+                child_rect_keys.add(key_)
+                at = lambda f: Poly.atom(f"child{k}['{key_}'].{f}")  # noqa: E731
+                return ("rect", ("vec", at("x"), at("y")), ("vec", at("w"), at("h")))
             return Poly.atom(canon(ast.unparse(expr)))
         raise AnalysisError(f"SUBTREE-BOX: expression `{short(expr)}` not understood")
 
@@ -504,6 +539,17 @@ def subtree_box(prog: Program) -> RuleResult:
 
     (o0, s0, k0, c0, st0), (o1, s1, k1, c1, st1) = boxes[0], boxes[1]
     decide("siblings-disjoint", [o1[1] - o0[1] - s0[0], o0[1] - o1[1] - s1[0]], st1)
+    # the trunks of the two sibling species (each at its stored place inside its own box) do not overlap along
+    # the across axis - also when a trunk sticks out of its box
+    if child_rect_keys - {trunk_keys[0]}:
+        raise AnalysisError(f"SUBTREE-BOX: the children's entries {sorted(child_rect_keys)} are read as rectangles but the trunk is stored under {trunk_keys[0]!r}")
+    tk = trunk_keys[0]
+    t = {j: {f: Poly.atom(f"child{boxes[j][3]}['{tk}'].{f}") for f in "xywh"} for j in (0, 1)}
+    decide(
+        "sibling-trunks-disjoint",
+        [(o1[1] + t[1]["x"]) - (o0[1] + t[0]["x"] + t[0]["w"]), (o0[1] + t[0]["x"]) - (o1[1] + t[1]["x"] + t[1]["w"])],
+        st1,
+    )
     for j, (off, sz, key, _c, st) in boxes.items():
         for label, poly in (
             (f"child{j}/left-edge-inside", off[1]),
